@@ -563,3 +563,54 @@ func (f *FuncCFG) ReachingCall(at ast.Node, id ast.Expr) *ast.CallExpr {
 	}
 	return nil
 }
+
+// AfterComm returns the point at which a communication (send/receive statement) has
+// happened: for a plain statement the point right after it; for the comm of a select case the
+// entry of that case's body (go/cfg places all comm statements of a select in the head block
+// although only the chosen one happens).
+func (f *FuncCFG) AfterComm(pred func(ast.Node) bool) []Point {
+	var out []Point
+	clauses := map[*ast.CommClause]bool{}
+	ast.Inspect(f.Body, func(n ast.Node) bool {
+		if _, ok := n.(*ast.FuncLit); ok && n != ast.Node(f.Body) {
+			return false
+		}
+		cc, ok := n.(*ast.CommClause)
+		if !ok || cc.Comm == nil {
+			return true
+		}
+		hit := false
+		ast.Inspect(cc.Comm, func(m ast.Node) bool {
+			if m != nil && pred(m) {
+				hit = true
+			}
+			return !hit
+		})
+		if hit {
+			clauses[cc] = true
+		}
+		return true
+	})
+	inClause := func(n ast.Node) bool {
+		for cc := range clauses {
+			if cc.Comm.Pos() <= n.Pos() && n.End() <= cc.Comm.End() {
+				return true
+			}
+		}
+		return false
+	}
+	for _, b := range f.G.Blocks {
+		if !b.Live {
+			continue
+		}
+		if cc, ok := b.Stmt.(*ast.CommClause); ok && b.Kind == cfg.KindSelectCaseBody && clauses[cc] {
+			out = append(out, Point{b, 0})
+		}
+	}
+	for _, pt := range f.Find(pred) {
+		if n := f.nodeAt(pt); n != nil && !inClause(n) {
+			out = append(out, Point{pt.B, pt.I + 1})
+		}
+	}
+	return out
+}
